@@ -253,6 +253,9 @@ def run_vmfault(ctx, st):
             for n in sorted(set(shown) | {k for k in spec if k in D.VM_PROT}):
                 g = shown.get(n, False)
                 ctx.check(L + '/protection-from-first-nested', And(Implies(g, spec.get(n, False)), Implies(spec.get(n, False), g)), n)
+        else:
+            # the first nested real-fault-address record is of a kind the tool does not decode: nothing may be taken from a later one
+            ctx.check(L + '/first-nested-undecoded-no-pid', t.pid is None and t.caller_prot is None)
         # text agrees with the fields
         s = str(t)
         ctx.observe('text', s)
